@@ -161,6 +161,7 @@ func streamPool(id string) []poolKey {
 		out = append(out, poolKey{"list", fmt.Sprintf("%s:%sl%d", table, id, i)})
 		out = append(out, poolKey{"set", fmt.Sprintf("%s:%ss%d", table, id, i)})
 		out = append(out, poolKey{"zset", fmt.Sprintf("%s:%sz%d", table, id, i)})
+		out = append(out, poolKey{"hll", fmt.Sprintf("%s:%sp%d", table, id, i)})
 	}
 	return out
 }
@@ -175,6 +176,8 @@ func readCmd(k poolKey) []string {
 		return []string{"lrange", k.key, "0", "-1"}
 	case "set":
 		return []string{"smembers", k.key}
+	case "hll":
+		return []string{"pfcount", k.key}
 	default:
 		return []string{"zrange", k.key, "0", "-1", "withscores"}
 	}
@@ -289,7 +292,10 @@ func runStream(s *stream, ops []Op, upto int, addr string, inc int, acks *int64,
 		s.applied = append(s.applied, rec)
 		res.acked++
 		atomic.AddInt64(acks, 1)
-		if !resp.Equal(v, want) || v.String() != want.String() {
+		// PFADD's reply (did a register change) is not compared: for an element that is already
+		// counted the implementation answers 1 or 0 depending on whether its sparse buffer was
+		// merged since (flush timing), which no listed property fixes; the resulting count is compared
+		if op.Args[0] != "pfadd" && (!resp.Equal(v, want) || v.String() != want.String()) {
 			res.replyDiff = fmt.Sprintf("stream %s op #%d %q: reply %s, model %s", s.id, s.next-1, op.String(), v.String(), want.String())
 			return res
 		}
